@@ -309,13 +309,14 @@ def run_shard(spec, rec):
                                                             else 'from-track-point'))
                     W = math.hypot(u, v)
                     rec.ev()
-                    if not (abs(tas - W) - 1e-9 * tas <= got <= tas + W + 1e-9 * tas):
+                    slack_ = 1e-9 * tas + 2.0 * pack_tol['step']
+                    if not (abs(tas - W) - slack_ <= got <= tas + W + slack_):
                         raise Mismatch('ground speed outside [|TAS-W|, TAS+W]',
                                        {'got': got, 'W': W, **case})
                     rec.cls('sub:triangle-bounds')
                     if kind == 'zero':
                         rec.ev()
-                        if abs(got - tas) > 1e-9 * tas:
+                        if abs(got - tas) > 1e-9 * tas + 2.0 * pack_tol['step']:
                             raise Mismatch('no wind but ground speed != TAS',
                                            {'got': got, **case})
                         rec.cls('sub:no-wind')
@@ -341,7 +342,7 @@ def run_shard(spec, rec):
                     got = query(wx, t, lat, lon, alt, tas, wind_to, True)
                     r = judge(got, tas, wind_to, u, v, 'pure tailwind', case)
                     rec.ev()
-                    if r == 'ok' and abs(got - (tas + W)) > 1e-8 * tas:
+                    if r == 'ok' and abs(got - (tas + W)) > 1e-8 * tas + 2.0 * pack_tol['step']:
                         raise Mismatch('tailwind does not add its full speed',
                                        {'got': got, 'expected': tas + W, **case})
                     rec.cls('sub:tailwind')
@@ -349,7 +350,7 @@ def run_shard(spec, rec):
                     got = query(wx, t, lat, lon, alt, tas, hd, True)
                     r = judge(got, tas, hd, u, v, 'pure headwind', case)
                     rec.ev()
-                    if r == 'ok' and abs(got - (tas - W)) > 1e-8 * tas:
+                    if r == 'ok' and abs(got - (tas - W)) > 1e-8 * tas + 2.0 * pack_tol['step']:
                         raise Mismatch('headwind does not subtract its full speed',
                                        {'got': got, 'expected': tas - W, **case})
                     rec.cls('sub:headwind')
@@ -372,7 +373,7 @@ def run_shard(spec, rec):
                     r2 = judge(g2, tas, (hd0 + delta) % 360, f2.cu[0], f2.cv[0],
                                'rotation (rotated)', {**case, 'delta': delta})
                     rec.ev()
-                    if r1 == 'ok' and r2 == 'ok' and abs(g1 - g2) > 1e-8 * tas:
+                    if r1 == 'ok' and r2 == 'ok' and abs(g1 - g2) > 1e-8 * tas + 4.0 * pack_tol['step']:
                         raise Mismatch('ground speed changes when heading and wind are '
                                        'rotated together', {'g1': g1, 'g2': g2, **case})
                     rec.cls('sub:rotation')
